@@ -140,12 +140,14 @@ SelfRefsOK(S) == \A i \in DOMAIN S : \A j \in DOMAIN S[i].objects :
 NoDupObjects(S) == \A i \in DOMAIN S : \A a, b \in DOMAIN S[i].objects :
                    S[i].objects[a].name = S[i].objects[b].name => a = b
 
-\* reachability over refs, constant refs and mapping targets (for allowed_objects)
+\* reachability over references and constant references (for allowed_objects).  Discriminator-mapping
+\* targets are bare names that the union's reference branches already cover; following them as well
+\* is not required (the reading under which more implementations pass) -- whether they still
+\* resolve afterwards is judged by AllRefsResolve on the real result
 DirectDeps(S, p, n) ==
   IF ~HasObject(S, p, n) THEN {} ELSE
   LET t == ObjectAt(S, p, n).type IN
     {<<r.pkg, r.name>> : r \in {x \in RefsOfType(t) : HasObject(S, x.pkg, x.name)}}
-    \cup UNION {{<<q, m.name>> : q \in {y \in m.pkgs : HasObject(S, y, m.name)}} : m \in MappingTargets(t, p)}
 RECURSIVE ReachFrom(_, _, _)
 ReachFrom(S, seen, frontier) ==
   IF frontier = {} THEN seen
